@@ -97,7 +97,16 @@ func TestVerif_C07_h1idle(t *testing.T) {
 		}
 		payloads = sub
 	}
-	c := C().SetTimeout(10 * time.Second).SetLogger(nil)
+	// the cases are independent (each worker has its own client and therefore its own connections):
+	// run them on a few workers, record the verdicts afterwards in case order
+	type icase struct {
+		p         string
+		cl        bool
+		path      string
+		id, human string
+		res       string
+	}
+	var cases []*icase
 	for i, p := range payloads {
 		for _, cl := range []bool{false, true} {
 			path := fmt.Sprintf("/i%d-%v", i, cl)
@@ -105,48 +114,68 @@ func TestVerif_C07_h1idle(t *testing.T) {
 			unsolicited[path] = []byte(p)
 			closeAfter[path] = cl
 			mu.Unlock()
-			human := fmt.Sprintf("unsolicited %q on the idle connection (then close=%v), then a second request", p, cl)
-			id := "h1idle:" + verifh.Hex(p) + ":" + strconv.FormatBool(cl)
-			s.Begin(id, human)
-			done := make(chan string, 1)
-			go func() {
-				ptxt, panicked := verifh.Safely(func() {
-					r1, err1 := c.R().Get(base + path)
-					if err1 != nil || r1 == nil || r1.StatusCode != 200 {
-						done <- fmt.Sprintf("first-failed: %v", err1)
-						return
-					}
-					time.Sleep(80 * time.Millisecond) // the unsolicited bytes arrive while the connection is idle
-					var err2 error
-					for try := 0; try < 3; try++ { // the peer may be closing the connection concurrently: a retry is legitimate
-						var r2 *Response
-						r2, err2 = c.R().Get(base + "/second")
-						if err2 == nil && r2 != nil && r2.StatusCode == 200 {
-							done <- "ok"
-							return
-						}
-					}
-					done <- fmt.Sprintf("second-failed: %v", err2)
-				})
-				if panicked {
-					done <- "panic: " + ptxt
-				}
-			}()
-			var res string
-			select {
-			case res = <-done:
-			case <-time.After(40 * time.Second):
-				res = "wedged"
-			}
-			s.Count(strings.SplitN(res, ":", 2)[0])
-			s.Observe(id, res == "ok", "", true, human, human+" -> "+res)
-			if res == "wedged" {
-				c = C().SetTimeout(10 * time.Second).SetLogger(nil)
-			}
+			cases = append(cases, &icase{p: p, cl: cl, path: path,
+				human: fmt.Sprintf("unsolicited %q on the idle connection (then close=%v), then a second request", p, cl),
+				id:    "h1idle:" + verifh.Hex(p) + ":" + strconv.FormatBool(cl)})
 		}
 	}
+	const workers = 6
+	var wg sync.WaitGroup
+	next := make(chan *icase)
+	for w := 0; w < workers; w++ {
+		wg.Add(1)
+		go func() {
+			defer wg.Done()
+			c := C().SetTimeout(10 * time.Second).SetLogger(nil)
+			defer func() { c.GetTransport().CloseIdleConnections() }()
+			for ic := range next {
+				s.Begin(ic.id, ic.human)
+				path := ic.path
+				done := make(chan string, 1)
+				go func() {
+					ptxt, panicked := verifh.Safely(func() {
+						r1, err1 := c.R().Get(base + path)
+						if err1 != nil || r1 == nil || r1.StatusCode != 200 {
+							done <- fmt.Sprintf("first-failed: %v", err1)
+							return
+						}
+						time.Sleep(80 * time.Millisecond) // the unsolicited bytes arrive while the connection is idle
+						var err2 error
+						for try := 0; try < 3; try++ { // the peer may be closing the connection concurrently: a retry is legitimate
+							var r2 *Response
+							r2, err2 = c.R().Get(base + "/second")
+							if err2 == nil && r2 != nil && r2.StatusCode == 200 {
+								done <- "ok"
+								return
+							}
+						}
+						done <- fmt.Sprintf("second-failed: %v", err2)
+					})
+					if panicked {
+						done <- "panic: " + ptxt
+					}
+				}()
+				select {
+				case ic.res = <-done:
+				case <-time.After(40 * time.Second):
+					ic.res = "wedged"
+				}
+				if ic.res == "wedged" {
+					c = C().SetTimeout(10 * time.Second).SetLogger(nil)
+				}
+			}
+		}()
+	}
+	for _, ic := range cases {
+		next <- ic
+	}
+	close(next)
+	wg.Wait()
+	for _, ic := range cases {
+		s.Count(strings.SplitN(ic.res, ":", 2)[0])
+		s.Observe(ic.id, ic.res == "ok", "", true, ic.human, ic.human+" -> "+ic.res)
+	}
 	_ = n
-	c.GetTransport().CloseIdleConnections()
 	s.Finish()
 }
 
